@@ -4,10 +4,10 @@ mod props;
 fn main() {
     let ctx = engine::Ctx::from_args();
     match ctx.id.as_str() {
-        // "C26" => props::c26::run(ctx),
-        // "C27" => props::c27::run(ctx),
-        // "C28" => props::c28::run(ctx),
-        // "C29" => props::c29::run(ctx),
+        "C26" => props::c26::run(ctx),
+        "C27" => props::c27::run(ctx),
+        "C28" => props::c28::run(ctx),
+        "C29" => props::c29::run(ctx),
         other => engine::harness_error(&format!("property {other} is not served by verif-net")),
     }
 }
